@@ -500,6 +500,7 @@ func (i *IniParser) parse(ini *ini) error {
 	})
 
 	var quotesLookup = make(map[*Option]bool)
+	var defaulted = make(map[*Option]bool)
 
 	for _, section := range ini.Sections {
 		name := section.Name
@@ -548,9 +549,15 @@ func (i *IniParser) parse(ini *ini) error {
 				continue
 			}
 
-			// ini value is ignored if parsed as default but defaults are prevented
+			// ini value is ignored if parsed as default but defaults are
+			// prevented, unless it was this file that provided the default
+			// (repeated entries of a slice or map option accumulate)
 			if i.ParseAsDefaults && opt.preventDefault {
-				continue
+				if !defaulted[opt] {
+					continue
+				}
+
+				opt.preventDefault = false
 			}
 
 			pval := &inival.Value
@@ -585,6 +592,7 @@ func (i *IniParser) parse(ini *ini) error {
 			var err error
 
 			if i.ParseAsDefaults {
+				defaulted[opt] = true
 				err = opt.setDefault(pval)
 			} else {
 				err = opt.Set(pval)
